@@ -510,7 +510,7 @@ func FuzzPipeline(f *testing.F) {
 func TestC08(t *testing.T) {
 	V.Rule("unit: sequences of 1-6 inputs (a fresh proxy every 40 sequences) pushed through the synchronous pipeline decode -> learn -> stamp -> register -> consume Route -> pin -> route -> relay (UDP-like and TCP-like arrival, requests and responses): structurally valid generated messages with 1-3 hostile fields (absurd / negative / non-numeric Content-Length, bracket-only / empty / huge Via hosts, hostile Route / From / To / CSeq / start lines, missing mandatory or duplicated singleton headers, every decoded number (Content-Length, CSeq, Expires, Max-Forwards, status, URI / Via / Route ports, rport) at every integer width boundary 2^k-2..2^k+1 for k in 7..64 in both signs - enumerated completely -, thousands of headers / Via entries / parameters, hostile tags, odd Expires), truncations and random byte strings; oracle: no panic, returns within 15 s, TotalAlloc growth per input <= 512*len + 1 MiB (decoding is allowed a large constant factor, not an allocation that ignores how many bytes arrived). lab: the same inputs plus random and oversized bytes against real UDP and TCP listeners; after every batch a sentinel request must still be relayed, and so must 2-6 small ordinary requests sent back to back (each once, intact), a TCP connection that carried undecodable bytes must have been closed, so must one whose peer stops in the middle of a message (any cut after the first byte) and shuts its sending side down, new connections must be served. bin: the real binary, RSS bounded, and - under a descriptor limit of 160 - still serving after 450 (thorough: 3000) TCP peers that connect, say nothing / one complete request / half of one, and close. The native coverage-guided target FuzzPipeline runs in the thorough tier. non-trivial = input that decodes (reaches routing) and contains >= 1 hostile field; distinct by input bytes")
 	V.Assume("egress hygiene: when the product itself computes a non-UDP next hop outside 127/8 for an input, the harness does not let that input reach the relay step (counted as neutralised); UDP sends cannot block")
-	V.Require("bin: listener serves after hundreds of short-lived TCP peers under a descriptor limit", "bin: process alive and RSS bounded after hostile batch", "decoded with hostile field", "rejected by the decoder", "tcp-like arrival", "udp-like arrival", "response", "lab: sentinel relayed after hostile batch", "lab: back-to-back ordinary requests all relayed after hostile batch", "lab: garbage TCP connection closed", "lab: connection ending in the middle of a message closed")
+	V.Require("lab: a next hop that sent requests over the proxy's connection, then ended it", "bin: listener serves after hundreds of short-lived TCP peers under a descriptor limit", "bin: process alive and RSS bounded after hostile batch", "decoded with hostile field", "rejected by the decoder", "tcp-like arrival", "udp-like arrival", "response", "lab: sentinel relayed after hostile batch", "lab: back-to-back ordinary requests all relayed after hostile batch", "lab: garbage TCP connection closed", "lab: connection ending in the middle of a message closed")
 
 	// saved hostile inputs, each as UDP-like and TCP-like arrival, with and without received-support
 	V.Regress(t, func(c regressCase) string {
@@ -688,6 +688,54 @@ func TestC08(t *testing.T) {
 		}
 		// deterministic generator state for the lab part: rapid draws via a private check
 		rcheckInner := func(name string, n int, prop func(rt *rapid.T)) { rcheck(t, name, n, prop) }
+		// Ordinary traffic with a peer in two roles: a TCP next hop the proxy connects
+		// to, which then sends requests of its own over that connection and, later,
+		// ends it; requests routed to it afterwards. Nothing here is hostile - the
+		// proxy keeps serving.
+		if !bin {
+			rcheckInner("peer-in-two-roles", V.N(8, 80), func(rt *rapid.T) {
+				hopIP, hopPort := s.ip(25), 5070
+				usend := func(b []byte) error { return ua.sendUDP(l.Addr, l.UDPPort, b) }
+				toHop := func(what string) *labTCPConn {
+					id := s.nextID("c08r-")
+					wire := []byte(fmt.Sprintf("OPTIONS sip:x@elsewhere.example SIP/2.0\r\nVia: SIP/2.0/UDP %s:5060;branch=z9hG4bK%s\r\nRoute: <sip:%s:%d;transport=tcp;lr>\r\nFrom: <sip:a@b>;tag=1\r\nTo: <sip:x@elsewhere.example>\r\nCall-ID: %s\r\nCSeq: 1 OPTIONS\r\nContent-Length: 0\r\n\r\n", ua.ip, id, hopIP, hopPort, id))
+					s.in.expect(wire)
+					usend(wire)
+					rs, err := s.in.settle(usend, 1)
+					got := labMessages(rs)
+					if err != nil || len(got) != 1 || got[0].tcp == nil || got[0].ep == nil || got[0].ep.ip != hopIP {
+						failf(rt, "%s, a request routed to the TCP element %s:%d did not arrive there: %v\n%s", what, hopIP, hopPort, err, labDescribe(got))
+					}
+					return got[0].tcp
+				}
+				conn := toHop("at the start")
+				for i, n := 0, rapid.IntRange(1, 3).Draw(rt, "requests of the hop"); i < n; i++ {
+					rid := s.nextID("c08rr-")
+					req := []byte(fmt.Sprintf("MESSAGE sip:u@%s:5060 SIP/2.0\r\nVia: SIP/2.0/TCP %s:%d;branch=z9hG4bK%s\r\nRoute: <sip:%s:5060;lr>\r\nFrom: <sip:hop@hop.example>;tag=h\r\nTo: <sip:u@nomatch.example>\r\nCall-ID: %s\r\nCSeq: 1 MESSAGE\r\nContent-Length: 0\r\n\r\n", ua.ip, hopIP, hopPort, rid, ua.ip, rid))
+					s.in.expect(req)
+					if err := conn.sendStrict(req); err != nil {
+						failf(rt, "%v", err)
+					}
+					if _, err := s.in.settle(conn.sendStrict, 1); err != nil {
+						failf(rt, "a request the next hop sent over the connection the proxy had opened to it: %v", err)
+					}
+				}
+				// the hop ends its connections; what was learned about it stays usable
+				for _, e := range s.eps {
+					if e.tcpL != nil && e.ip == hopIP && e.port == hopPort {
+						e.hangUp()
+					}
+				}
+				V.Class("lab: a next hop that sent requests over the proxy's connection, then ended it")
+				V.NonTrivial("tworoles|" + s.nextID(""))
+				for i, n := 0, rapid.IntRange(1, 3).Draw(rt, "requests afterwards"); i < n; i++ {
+					toHop("after the hop had sent requests of its own over the proxy's connection and ended that connection")
+				}
+				if !sentinel("ordinary traffic with a next hop in two roles", nil) {
+					rt.Fatalf("sentinel")
+				}
+			})
+		}
 		rcheckInner("batches", batches, func(rt *rapid.T) {
 			k := rapid.IntRange(1, 8).Draw(rt, "inputs")
 			var batch []string
